@@ -138,3 +138,57 @@ Proof. reflexivity. Qed.
 
 Lemma firstn_agree_eq n b1 b2 : agree n b1 b2 -> firstn n b1 = firstn n b2.
 Proof. exact (fun H => H). Qed.
+
+(* ---- agreement on a fixed window, whatever the offset of the write ---- *)
+
+Lemma agree_overwrite_any : forall bytes K b1 b2, agree K b1 b2 -> agree K (overwrite b1 bytes) (overwrite b2 bytes).
+Proof.
+  unfold agree. induction bytes as [|y ys IH]; intros K b1 b2 H; [destruct b1, b2; exact H|].
+  destruct K as [|k]; [reflexivity|].
+  destruct b1 as [|x1 r1], b2 as [|x2 r2]; cbn in *; try reflexivity; try discriminate.
+  inversion H. f_equal. apply IH. assumption.
+Qed.
+
+Lemma agree_write_any : forall off K b1 b2 bytes, agree K b1 b2 -> agree K (write b1 off bytes) (write b2 off bytes).
+Proof.
+  induction off as [|o IH]; intros K b1 b2 bytes H.
+  - change (write b1 0 bytes) with (overwrite b1 bytes). change (write b2 0 bytes) with (overwrite b2 bytes).
+    apply agree_overwrite_any. assumption.
+  - unfold agree in *. destruct K as [|k]; [reflexivity|].
+    destruct b1 as [|x1 r1], b2 as [|x2 r2]; cbn in *; try reflexivity; try discriminate.
+    inversion H. f_equal. apply IH. assumption.
+Qed.
+
+Lemma agree_put16_any off K b1 b2 v : agree K b1 b2 -> agree K (put16 b1 off v) (put16 b2 off v).
+Proof. intros. unfold put16. apply agree_write_any. assumption. Qed.
+
+Lemma hdr6_agree_any K b c a0 a1 a2 a3 a4 a5 : agree K b c -> agree K (hdr6 b a0 a1 a2 a3 a4 a5) (hdr6 c a0 a1 a2 a3 a4 a5).
+Proof. intros H. unfold hdr6. repeat apply agree_put16_any. assumption. Qed.
+
+Lemma firstn_repeat {A} (x : A) : forall k n, firstn k (repeat x n) = repeat x (Nat.min k n).
+Proof.
+  induction k as [|k IH]; intros n; [reflexivity|]. destruct n as [|n]; [reflexivity|].
+  cbn. f_equal. apply IH.
+Qed.
+
+Lemma zero_prefix_length n b : length (zero_prefix n b) = length b.
+Proof.
+  unfold zero_prefix. rewrite app_length, repeat_length, skipn_length. lia.
+Qed.
+
+(* a scrubbed pooled buffer and the library's fresh array agree on everything the
+   library's array has, up to the pooled buffer's size *)
+Lemma zero_prefix_agree_fresh n b m : n <= m -> n <= length b -> agree n (zero_prefix n b) (repeat 0%N m).
+Proof.
+  intros Hm Hb. unfold agree, zero_prefix. rewrite firstn_repeat.
+  rewrite firstn_app, repeat_length. rewrite firstn_repeat.
+  replace (Nat.min n (length b)) with n by lia.
+  replace (n - n) with 0 by lia. cbn [firstn]. rewrite app_nil_r.
+  replace (Nat.min n n) with n by lia. replace (Nat.min n m) with n by lia. reflexivity.
+Qed.
+
+Lemma zero_prefix_agree_two n b1 b2 : n <= length b1 -> n <= length b2 -> agree n (zero_prefix n b1) (zero_prefix n b2).
+Proof.
+  intros H1 H2. unfold agree.
+  rewrite (zero_prefix_agree_fresh n b1 n (le_n _) H1), (zero_prefix_agree_fresh n b2 n (le_n _) H2). reflexivity.
+Qed.
